@@ -119,3 +119,38 @@ def clientIDFromCtx (c : Ctx) : Except Err Bytes :=
   | _ => .ok []
 
 end AGH.C16
+
+namespace AGH.C16
+open AGH AGH.Bytes
+
+/-! ### The ClientID cache between `HandleBefore` and `processInitial`
+
+`HandleBefore` stores the extracted ClientID under dnsproxy's request number;
+`processInitial` reads it back under the same number.  dnsproxy numbers
+requests from 1 again whenever the proxy is re-created, the cache lives as long
+as the server, so numbers ARE reused. -/
+
+/-- request number ↦ ClientID (absent = empty). -/
+abbrev Cache := List (Nat × Bytes)
+
+def Cache.get (c : Cache) (r : Nat) : Bytes :=
+  match c.find? (·.1 == r) with
+  | some (_, id) => id
+  | none => []
+
+def Cache.del (c : Cache) (r : Nat) : Cache := c.filter (·.1 != r)
+
+def Cache.set (c : Cache) (r : Nat) (id : Bytes) : Cache := (r, id) :: c.del r
+
+/-- The part of `HandleBefore` that concerns the ClientID (access lists empty):
+a failed extraction fails the request and leaves the cache alone; otherwise the
+entry for this request number is replaced — or removed when there is no id. -/
+def handleBefore (c : Cache) (r : Nat) (ctx : Ctx) : Cache × Except Err Bytes :=
+  match clientIDFromCtx ctx with
+  | .error e => (c, .error e)
+  | .ok id => if id ≠ [] then (c.set r id, .ok id) else (c.del r, .ok [])
+
+/-- `processInitial`: the ClientID the request is attributed to. -/
+def attributed (c : Cache) (r : Nat) : Bytes := c.get r
+
+end AGH.C16
